@@ -71,6 +71,9 @@ EDITS = [
  ("setu32/iter.rs", "dense iteration: scan stops at bit 31", r"while self\.whichbit < 32 \{", "while self.whichbit < 31 {"),
  ("setu32/iter.rs", "bitmap iteration: count not decremented", r"(Internal::Heap \{ a, \.\. \} => \{[\s\S]*?if \(x & \(1 << oldbit\)\) != 0 \{\s*)self\.sz_left -= 1;", r"\g<1>"),
  ("setu64.rs", "unsplit", r"(fn unsplit_u64[\s\S]*?)k \* bits \+ offset", r"\g<1>k * bits + offset + 1"),
+ ("setu64.rs", "dispatch: 64 selects the bitmap table", r"(fn internal<'a>[\s\S]*?)\} else if b\.bits == 64 \{", r"\g<1>} else if b.bits == 63 {"),
+ ("setu64.rs", "dispatch: internal_mut disagrees with internal", r"(fn internal_mut<'a>[\s\S]*?)if b\.bits == 0 \|\| b\.bits > 64 \{", r"\g<1>if b.bits == 0 || b.bits > 65 {"),
+ ("setu32.rs", "dispatch: plain table threshold", r"(fn internal<'a>[\s\S]*?)if b\.bits == 0 \|\| b\.bits > 32 \{", r"\g<1>if b.bits == 0 || b.bits > 33 {"),
  ("setu64.rs", "BITSPLITS row", r"&\[25, 12, 12, 12\]", "&[26, 12, 12, 12]"),
  ("setu32.rs", "log_2 width", r"(fn log_2\(x: u32\)[\s\S]*?)num_bits::<u32>\(\) as u32 - x\.leading_zeros\(\)", r"\g<1>num_bits::<u32>() as u32 + 1 - x.leading_zeros()"),
  ("setu32.rs", "compute_array_bits large threshold", r"else if log_2\(mx\) > 62 \{", "else if log_2(mx) > 31 {"),
@@ -92,7 +95,7 @@ def main():
     shutil.copytree("/repo/src", W + "/repo/src")
     sh(f"rsync -a --exclude .lake/build/bin {V}/lean/ {W}/lean/")
     env = dict(os.environ, VERIF_REPO=W + "/repo", VERIF_GEN_OUT=W + "/lean/TinysetModel/Generated")
-    target = "TinysetModel.Proofs.Consts TinysetModel.Proofs.Fns TinysetModel.Proofs.Loops TinysetModel.Proofs.ContainsSrc TinysetModel.Proofs.RemoveSrc TinysetModel.Proofs.InsertSrc TinysetModel.Proofs.TinySrc TinysetModel.Proofs.IterSrc TinysetModel.Proofs.Fits"
+    target = "TinysetModel.Proofs.Consts TinysetModel.Proofs.Fns TinysetModel.Proofs.Loops TinysetModel.Proofs.ContainsSrc TinysetModel.Proofs.RemoveSrc TinysetModel.Proofs.InsertSrc TinysetModel.Proofs.TinySrc TinysetModel.Proofs.IterSrc TinysetModel.Proofs.IterDrainSrc TinysetModel.Proofs.Fits"
     rc, out = sh(f"python3 {V}/tools/gen_consts.py && lake build {target}", cwd=W + "/lean", env=env)
     if rc != 0:
         print("baseline does not build:", out[-800:]); return 2
